@@ -64,16 +64,12 @@ impl InfixOpManager {
                 SETTER,
                 RIGHT,
                 Arc::new(move |left, right| {
-                    let (mut a, b) = (left.decimal()?, right.decimal()?);
-                    match op {
-                        "+=" => a += b,
-                        "-=" => a -= b,
-                        "*=" => a *= b,
-                        "/=" => a /= b,
-                        "%=" => a %= b,
-                        _ => (),
-                    }
-                    Ok(Value::Number(a))
+                    let (a, b) = (left.decimal()?, right.decimal()?);
+                    Ok(Value::Number(checked_decimal_op(
+                        &op[..op.len() - 1],
+                        a,
+                        b,
+                    )?))
                 }),
             );
         }
@@ -85,16 +81,8 @@ impl InfixOpManager {
                 SETTER,
                 RIGHT,
                 Arc::new(move |left, right| {
-                    let (mut a, b) = (left.integer()?, right.integer()?);
-                    match op {
-                        "<<=" => a <<= b,
-                        ">>=" => a >>= b,
-                        "&=" => a &= b,
-                        "^=" => a ^= b,
-                        "|=" => a |= b,
-                        _ => (),
-                    }
-                    Ok(Value::from(a))
+                    let (a, b) = (left.integer()?, right.integer()?);
+                    Ok(Value::from(checked_integer_op(&op[..op.len() - 1], a, b)?))
                 }),
             );
         }
@@ -163,16 +151,8 @@ impl InfixOpManager {
                 CALC,
                 LEFT,
                 Arc::new(move |left, right| {
-                    let (mut a, b) = (left.integer()?, right.integer()?);
-                    match op {
-                        "|" => a |= b,
-                        "^" => a ^= b,
-                        "&" => a &= b,
-                        "<<" => a <<= b,
-                        ">>" => a >>= b,
-                        _ => (),
-                    }
-                    Ok(Value::from(a))
+                    let (a, b) = (left.integer()?, right.integer()?);
+                    Ok(Value::from(checked_integer_op(op, a, b)?))
                 }),
             );
         }
@@ -184,16 +164,8 @@ impl InfixOpManager {
                 CALC,
                 LEFT,
                 Arc::new(move |left, right| {
-                    let (mut a, b) = (left.decimal()?, right.decimal()?);
-                    match op {
-                        "+" => a += b,
-                        "-" => a -= b,
-                        "*" => a *= b,
-                        "/" => a /= b,
-                        "%" => a %= b,
-                        _ => (),
-                    }
-                    Ok(Value::from(a))
+                    let (a, b) = (left.decimal()?, right.decimal()?);
+                    Ok(Value::from(checked_decimal_op(op, a, b)?))
                 }),
             );
         }
@@ -412,7 +384,7 @@ impl PostfixOpManager {
             "++",
             Arc::new(|param| {
                 let a = match param {
-                    Value::Number(a) => a + Decimal::from_i32(1).unwrap(),
+                    Value::Number(a) => checked_decimal_op("+", a, Decimal::from_i32(1).unwrap())?,
                     _ => return Err(Error::ShouldBeNumber()),
                 };
                 Ok(Value::Number(a))
@@ -423,7 +395,7 @@ impl PostfixOpManager {
             "--",
             Arc::new(|param| {
                 let a = match param {
-                    Value::Number(a) => a - Decimal::from_i32(1).unwrap(),
+                    Value::Number(a) => checked_decimal_op("-", a, Decimal::from_i32(1).unwrap())?,
                     _ => return Err(Error::ShouldBeNumber()),
                 };
                 Ok(Value::Number(a))
@@ -447,6 +419,36 @@ impl PostfixOpManager {
     pub fn exist(&self, op: &str) -> bool {
         let binding = self.store.lock().unwrap();
         binding.get(op).is_some()
+    }
+}
+
+// decimal arithmetic that reports a zero divisor and an overflow as errors
+// instead of panicking
+pub fn checked_decimal_op(op: &str, a: Decimal, b: Decimal) -> Result<Decimal> {
+    if (op == "/" || op == "%") && b.is_zero() {
+        return Err(Error::DivideByZero);
+    }
+    let ans = match op {
+        "+" => a.checked_add(b),
+        "-" => a.checked_sub(b),
+        "*" => a.checked_mul(b),
+        "/" => a.checked_div(b),
+        "%" => a.checked_rem(b),
+        _ => return Err(Error::NotSupportedOp(op.to_string())),
+    };
+    ans.ok_or(Error::NumberOverflow)
+}
+
+// 64-bit two's-complement bit operations; a shift count outside 0..=63 is an error
+fn checked_integer_op(op: &str, a: i64, b: i64) -> Result<i64> {
+    let shift = u32::try_from(b).map_err(|_| Error::InvalidShiftCount);
+    match op {
+        "|" => Ok(a | b),
+        "^" => Ok(a ^ b),
+        "&" => Ok(a & b),
+        "<<" => a.checked_shl(shift?).ok_or(Error::InvalidShiftCount),
+        ">>" => a.checked_shr(shift?).ok_or(Error::InvalidShiftCount),
+        _ => Err(Error::NotSupportedOp(op.to_string())),
     }
 }
 
